@@ -58,13 +58,26 @@ Fixpoint akai_walk (fuel : nat) (block : list Z) (size : Z)
   match fuel with
   | O => OutOfFuel
   | S fuel =>
-      if sub >=? size then Ok st else
+      if sub >=? size then
+        (* a directory run that ends with the table is installed (D11 fix) *)
+        (if a_prev_dir st && negb (match links with [] => true | _ => false end) then
+           t <- add_links links (a_links st) ;;
+           Ok {| a_links := t; a_dirty := a_dirty st; a_prev_dir := a_prev_dir st |}
+         else Ok st)
+      else
       let v := znth 0 block sub in
       let cur_dir := is_dir_word v in
       if negb cur_dir && a_prev_dir st && negb (match links with [] => true | _ => false end) then
         t <- add_links links (a_links st) ;;
         Ok {| a_links := t; a_dirty := a_dirty st; a_prev_dir := false |}
       else if (v =? SAT_FREE) || ((v <? size) && znth false (a_dirty st) v) then
+        (* the chain runs into a chain decoded earlier: keep the walked links and join it
+           (D4 fix); a free entry, a self link or a cycle inside this walk are not linked *)
+        if negb (v =? SAT_FREE) && negb (v =? sub) && negb (existsb (Z.eqb v) links) then
+          t <- add_links (links ++ [sub]) (a_links st) ;;
+          Ok {| a_links := upd t sub {| lnext := v; lend := false |};
+                a_dirty := upd (a_dirty st) sub true; a_prev_dir := false |}
+        else
         Ok {| a_links := a_links st; a_dirty := upd (a_dirty st) sub true; a_prev_dir := false |}
       else if v =? SAT_EOF then
         t <- add_links (links ++ [sub]) (a_links st) ;;
